@@ -363,4 +363,61 @@ example :
     VxfwInterpTree.runFindPath (parseBody Gen.VxfwBodies.findPath) (parseBody Gen.VxfwBodies.childHasFocus) 9 0 (some t) = some ([0], false) ∧
     VxfwInterpTree.runFindPath (parseBody Gen.VxfwBodies.findPath) (parseBody Gen.VxfwBodies.childHasFocus) 9 0 none = some ([0], false) := by decide +kernel
 
+/-- **C15 over the executed bodies, in one statement.**  For every widget behaviour `o` whose refocus chains from focus
+    notifications terminate (`NotifRanked`, ranks ≤ `R`), every history of the Run loop over the EXECUTED bodies (`bRun`: Init,
+    key / custom / mouse events, terminal FocusIn / FocusOut, resize, redraw, frames with arbitrary trees each showing a widget at
+    most once under a point), any nesting budget `≥ 3R+3` (+1 inside): the loop returns no error and in the state it reaches
+    * the budget was never exhausted,
+    * `f.path` is the drawn chain of the widget focused NOW (so the next key event is routed over it),
+    * all FocusOut / FocusIn notifications of the history pair up, ending with the focused widget,
+    * MouseEnter / MouseLeave alternate for every widget and the entered widgets are those of the hit list,
+    * every command returned by any handler call of the history took effect exactly once,
+    * and the next key / custom event, dispatched by the EXECUTED body of `focusHandler.handleEvent`, is offered capture → target →
+      bubble over that drawn chain, stopping at the first consumed offer.
+    (Each clause is a theorem of `Props/C15.lean` transported along `run_bodies_eq_model`.) -/
+theorem c15_over_executed_bodies (o : Oracle) (rk : Id → Nat) (R : Nat) (hR : ∀ w, rk w ≤ R) (hrk : NotifRanked o rk)
+    (fuel : Nat) (hf : 3 * R + 3 ≤ fuel) (root : Id) (t0 : STree) (steps : List Step)
+    (h0 : HitsNodup t0) (hs : ∀ st ∈ steps, StepOk st) :
+    ∃ s', bRun genBodies (e0 o) fuel root t0 steps = some (s', false) ∧
+      s'.stuck = false ∧
+      s'.path = drawnPath s' ∧
+      focusRun root false s'.trace = some s'.focused ∧
+      (∃ ent, hoverRun [] s'.trace = some ent ∧ ∀ w, w ∈ ent ↔ w ∈ s'.lastHits.map Hit.w) ∧
+      (effectsIn s'.trace).Perm (owed o.h 0 s'.trace) ∧
+      (∀ ev, Routable ev → ∃ s'' tr,
+        runFocusHandleEvent (parseBody Gen.VxfwBodies.focusHandleEvent) (e0 o) (fuel + 1) s' ev (s'.path.length + 1) = some (s'', false) ∧
+        s''.trace = s'.trace ++ tr ∧ conforms ev s'.focused (planOf o.captures (drawnPath s') .focusTgt) tr = true) := by
+  obtain ⟨hst, hperm⟩ := C15.commands_once_history_ranked o rk R hR hrk (fuel + 1) (by omega) root t0 steps
+  have hpath := C15.path_is_drawn_chain o (fuel + 1) root t0 steps
+  refine ⟨runSteps o (fuel + 1) (runInit o (fuel + 1) root t0) steps, ?_, hst, hpath,
+    C15.focus_change_once_history o (fuel + 1) root t0 steps, C15.hover_alternates o (fuel + 1) root t0 steps h0 hs, hperm, ?_⟩
+  · rw [run_bodies_eq_model, C15Err.no_error_agrees]
+  · intro ev hev
+    obtain ⟨s'', tr, h1, h2, h3⟩ := key_routing_body o (fuel + 1) (runSteps o (fuel + 1) (runInit o (fuel + 1) root t0) steps) ev hev
+    rw [hpath] at h3
+    exact ⟨s'', tr, h1, h2, h3⟩
+
+/-- Non-vacuity of `c15_over_executed_bodies`: the chain oracle of `Props/C15.lean` (widget 1's FocusIn handler focuses widget 2)
+    with rank 1 for widget 1, `R = 1`, budget 6, a tree drawing 0, 1, 2 once each, and a history with a key (focus 1 → 2), a frame,
+    a mouse event and a terminal FocusOut: all hypotheses hold, so all seven clauses do. -/
+example :
+    let t : STree := .node 0 9 9 [(0, 0, 0, .node 1 2 2 []), (3, 3, 0, .node 2 2 2 [])]
+    ∃ s', bRun genBodies (e0 C15.chainOracle) 6 0 t [.ev (.key 1), .frame t t, .ev (.mouse 1 1), .ev .focusOut] = some (s', false) ∧
+      s'.stuck = false ∧ s'.path = drawnPath s' ∧ (effectsIn s'.trace).Perm (owed C15.chainOracle.h 0 s'.trace) := by
+  intro t
+  have hn : HitsNodup t := hitsNodup_of_ids t (by decide)
+  have hn' : HitsNodup (sortTree t) := hitsNodup_of_ids _ (by decide)
+  obtain ⟨s', h1, h2, h3, _, _, h6, _⟩ := c15_over_executed_bodies C15.chainOracle (fun w => if w = 1 then 1 else 0) 1
+    (by intro w; by_cases h : w = 1 <;> simp [h]) C15.chainOracle_ranked 6 (by decide) 0 t
+    [.ev (.key 1), .frame t t, .ev (.mouse 1 1), .ev .focusOut] hn
+    (by
+      intro st hst
+      simp only [List.mem_cons, List.mem_nil_iff, or_false] at hst
+      rcases hst with rfl | rfl | rfl | rfl
+      · trivial
+      · exact ⟨hn, hn', hn'⟩
+      · trivial
+      · trivial)
+  exact ⟨s', h1, h2, h3, h6⟩
+
 end VaxisModel.Props.C15Body
